@@ -1195,6 +1195,9 @@ func (s *Sim) serverWrote(c *Conn, frame []byte) {
 	}
 	wp := &WireResp{Seq: s.Seq(), T: s.Now(), Conn: c, Key: ri.key, Ver: ri.ver, Corr: corr, ReqSeq: ri.seq}
 	wp.Resp = decodeResp(ri.key, ri.ver, frame)
+	if s.wirelog && s.P.Knob("wirelog", 0) > 1 {
+		s.Logf("WIRE processed %s corr=%d %s", c.Name, corr, summarize(s, wp.Resp))
+	}
 	for _, fn := range s.OnProcessed {
 		fn(wp)
 	}
